@@ -121,9 +121,9 @@ def contexts_line2(scenario: int, first: int, lo: int, a: int, b: int) -> int:
 
 
 # ---------------------------------------------------------------------------------------------------------
-@harness("C15", lemma="inherit", cubes={"first": [0, 1]}, pre=["0 <= a <= 9", "a <= b <= 9", "b <= c <= 9"],
+@harness("C15", lemma="inherit", cubes={"first": [0, 1]}, pre=["0 <= a <= 12", "a <= b <= 12", "b <= c <= 12"],
          example=dict(first=0, a=1, b=3, c=5), timeout=600,
-         bounds="parent thread: enter p1, request, exit, enter p2, request, exit; child thread: inherit(parent), request, request; "
+         bounds="parent thread: enter p1, request, exit, enter p2, request, exit; child thread: inherit(parent), request, enter own runtime, request, exit, request; "
                 "every schedule with up to 3 context switches at operation granularity",
          what="the child is served by the handlers the parent had at the moment inherit() ran (the default ones if the parent had "
               "no entered runtime then), and keeps them whatever the parent does afterwards")
@@ -155,7 +155,9 @@ def inherit(first: int, a: int, b: int, c: int) -> int:
         seen_at_inherit.append(parent_state[-1] if parent_state else "dflt")
         rt.inherit(wp.t)
 
-    wc = Worker(sched, [do_inherit, lambda: _serve(RA), lambda: _serve(RA)], "op")
+    own = Runtime().handle(RA, _tagger("child-own"))
+    wc = Worker(sched, [do_inherit, lambda: _serve(RA), lambda: own.__enter__() and None, lambda: _serve(RA),
+                        lambda: own.__exit__(None, None, None), lambda: _serve(RA)], "op")
     n = run_two([wp, wc], first, (a, b, c), bound=16)
     want = seen_at_inherit[0] if seen_at_inherit else None
     note("first", first, "switches", (a, b, c), "parent saw", wp.results, "child saw", wc.results, "parent had at inherit", want)
@@ -163,8 +165,8 @@ def inherit(first: int, a: int, b: int, c: int) -> int:
         return 0
     if wp.results[1] != "p1" or wp.results[4] != "p2":
         return 0
-    if wc.results[1] != want or wc.results[2] != want:
-        return 0
+    if wc.results[1] != want or wc.results[3] != "child-own" or wc.results[5] != want:
+        return 0          # the inherited handlers serve before and AFTER a block of the child's own
     return 2
 
 
@@ -276,8 +278,8 @@ def evaluate_line1(first: int, warm: bool, a: int) -> int:
     return _evaluate(first, warm, (a,))
 
 
-@harness("C15", lemma="evaluate-line-2", cubes={"first": [0, 1], "warm": [False, True], "lo": list(range(0, 67, 6))}, tier="thorough",
-         pre=["lo <= a < lo + 6", "a <= b <= 66"], example=dict(first=0, warm=False, lo=6, a=10, b=25), timeout=1800,
+@harness("C15", lemma="evaluate-line-2", cubes={"first": [0, 1], "warm": [False, True], "lo": list(range(0, 67, 6))},
+         pre=["lo <= a < lo + 6", "a <= b <= 66"], example=dict(first=0, warm=False, lo=6, a=10, b=25), timeout=900,
          bounds=_EB + "; every schedule with two context switches", what=_EW)
 def evaluate_line2(first: int, warm: bool, lo: int, a: int, b: int) -> int:
     return _evaluate(first, warm, (a, b))
